@@ -56,8 +56,12 @@ PRECONDITIONS = [
 ]
 
 
+CONTRACT = re.compile(r"(^|::)clamp$")       # std functions whose documented precondition panics (summarised in vcheck/summaries.py)
+
+
 def pan_sites(f):
-    return [(bb, canon(s[2])) for bb, sts in f.blocks.items() for s in sts if s[0] == "call" and PAN.search(canon(s[2]).split("::<")[0])]
+    return [(bb, canon(s[2])) for bb, sts in f.blocks.items() for s in sts if s[0] == "call" and
+            (PAN.search(canon(s[2]).split("::<")[0]) or CONTRACT.search(canon(s[2]).split("::<")[0]))]
 
 
 def source_file(tree, fname):
@@ -96,7 +100,7 @@ def census(ses, rep, fs):
                 if not users:
                     rep.add(f"census/{fs}/{f.name}/dead-closure", "unsat", "no function refers to this closure (the arm that called it was removed as unreachable)", nontrivial=False)
                     continue
-                if any(s_[0] == "call" and cid in s_[2] for g in users for sts in g.blocks.values() for s_ in sts) and len(f.blocks) <= 60:
+                if any(s_[0] == "call" and re.match(r"^<&?(mut )?" + re.escape(cid) + r" as Fn", s_[2]) for g in users for sts in g.blocks.values() for s_ in sts) and len(f.blocks) <= 60:
                     continue
             ex = ses.executor("lib", fs, inline=lambda n_, fn, own=own_closures: any(fn is g for g in own) and "{closure" in n_)
             ex.max_block_visits = 2
@@ -121,13 +125,17 @@ def census(ses, rep, fs):
                     objs[v.oid] = v
             rng = ex.all_discr_ranges()
             per_site = {}
+            events = []
             for o in outs:
-                if o.kind != "panic" or str(o.value).startswith("assert:"):
-                    continue
-                msg = str(o.value)
-                key = (o.info[0] if o.info else f.name, msg[:70])
+                for t in o.trace:
+                    if t[0] == "panic-candidate" and str(t[1]).startswith("contract:"):
+                        events.append((o, f.name, t[1], [t[2]]))
+                if o.kind == "panic" and not str(o.value).startswith("assert:"):
+                    events.append((o, o.info[0] if o.info else f.name, str(o.value), list(o.pc)))
+            for o, where, msg, cond in events:
+                key = (where, msg[:70])
                 ent = per_site.setdefault(key, {"reach": False, "kinds": {}, "unknown": False})
-                r, _ = ses.check(list(o.pc) + rng, 20)
+                r, _ = ses.check(cond + rng, 20)
                 if r == "unsat":
                     continue
                 if r == "unknown":
@@ -135,7 +143,7 @@ def census(ses, rep, fs):
                     continue
                 ent["reach"] = True
                 pcv = set()
-                for c in o.pc:
+                for c in cond:
                     ex._vars(c, pcv)
                 names = {str(v) for v in pcv}
                 for (oid, k), d in ex.lazy_tab.items():
@@ -149,7 +157,7 @@ def census(ses, rep, fs):
                     vs = ex.enums.variants(ob.ty)
                     if not vs or ek not in AST_ENUMS:
                         continue
-                    reach = {vn[0] for i, vn in enumerate(vs) if ses.check(list(o.pc) + rng + [d == z3.BitVecVal(i, 64)], 10)[0] != "unsat"}
+                    reach = {vn[0] for i, vn in enumerate(vs) if ses.check(cond + rng + [d == z3.BitVecVal(i, 64)], 10)[0] != "unsat"}
                     ent["kinds"].setdefault(ek, set()).update(reach)
             for (fn_, msg), ent in sorted(per_site.items()):
                 n_sites += 1
@@ -380,15 +388,29 @@ def corpus_panics(fs):
 
 
 def deep_nesting_time():
+    """nested call shapes that are formatted in well under a second when trial formatting is bounded"""
     import time
     binp = common.native_build("default")
-    src = "local x = " + "call(" * 16 + "a, function() return 1 end, b" + ")" * 16 + "\n"
-    t = time.time()
-    try:
-        subprocess.run([binp, "-"], input=src.encode(), capture_output=True, timeout=40)
-    except subprocess.TimeoutExpired:
-        return 40.0, src
-    return time.time() - t, src
+    n = 20
+    shapes = [
+        "local x = " + "call(" * 16 + "a, function() return 1 end, b" + ")" * 16 + "\n",
+        "local tree = " + 'new("Frame", { ' * n + "child" + " })" * n + "\n",
+        "local v = " + "wrap({ key = " * n + "leaf" + " })" * n + "\n",
+        "local g = " + "outer(function() return " * 12 + "1" + " end)" * 12 + "\n",
+    ]
+    worst, wsrc = 0.0, shapes[0]
+    for src in shapes:
+        t = time.time()
+        try:
+            subprocess.run([binp, "-"], input=src.encode(), capture_output=True, timeout=25)
+            dt = time.time() - t
+        except subprocess.TimeoutExpired:
+            dt = 25.0
+        if dt > worst:
+            worst, wsrc = dt, src
+        if worst > 8.0:
+            break
+    return worst, wsrc
 
 
 def run(ses, rep):
@@ -442,9 +464,9 @@ def run(ses, rep):
             t, src = deep_nesting_time()
             if t > 8.0:
                 st = rep.violation({"obligation": "heuristics"}, {"what": what, "source": src, "seconds": round(t, 1)})
-                rep.add(oid, st, f"{what}: 16 nested calls took {t:.1f}s")
+                rep.add(oid, st, f"{what}: a {len(src)}-byte nested call took {t:.1f}s")
             else:
-                rep.add(oid, "inconclusive", f"{what}: 16 nested calls formatted in {t:.2f}s")
+                rep.add(oid, "inconclusive", f"{what}: the nested-call programs are formatted in at most {t:.2f}s")
         elif kind == "parse-error":
             binp = common.native_build("default")
             rc, pan, err = run_src(binp, "local x = = 1\n", [])
